@@ -300,6 +300,39 @@ func ruleJSONLEAFCLASS(c *Ctx, r *Report) {
 		}
 		return "", ""
 	}
+	// the regexp test of the decoder's classifier: a regexp token is any text /…/ of length ≥ 2 (the lexer's
+	// regexp state), so the classifier must call every such text a Regexp: offset 0, minimal length ≤ 2
+	{
+		paths, _ := c.enumPathsInl(dec, 5000)
+		found := false
+		for _, p := range paths {
+			if p.Ret == nil {
+				continue
+			}
+			rv, _ := c.resolveE(p.Ret.Results[0], p.Env)
+			call, ok := rv.(*ssa.Call)
+			if !ok || call.Call.StaticCallee() == nil {
+				continue
+			}
+			ops := c.ctorOperator(call.Call.StaticCallee())
+			if len(ops) != 1 || ops[0] != "expr.Regexp" {
+				continue
+			}
+			found = true
+			t := slashTest(p.Atoms)
+			switch {
+			case !t.ok:
+				r.bad(rule, "regexp-test|extract", c.instrPos(p.Ret), "the decoder builds a Regexp leaf without testing for the /…/ delimiters")
+			case t.offset != 0 || t.minLen > 2:
+				r.bad(rule, "regexp-test", c.instrPos(p.Ret), fmt.Sprintf("the decoder calls a text a regular expression only from length %d (offset %d); the lexer's regexp token is any /…/ from length 2 (e.g. `//`), which then decodes as a different kind of leaf and the decoded tree no longer validates", t.minLen, t.offset))
+			default:
+				r.ok(rule, "regexp-test", c.instrPos(p.Ret), fmt.Sprintf("/…/ from length %d", t.minLen))
+			}
+		}
+		if !found {
+			r.bad(rule, "regexp-test|extract", "-", "the decoder's classifier has no path that builds a Regexp leaf")
+		}
+	}
 	gp, _ := wildGuard(pr.TokToLit)
 	gd, pos := wildGuard(dec)
 	switch {
@@ -1111,4 +1144,65 @@ func rulePARSERETURNS(c *Ctx, r *Report) {
 		}
 	}
 	r.floor(rule, "error returns of Parse", n, 2)
+}
+
+// LOOP-RETURNS (C05/C06/C07/C09/C10): the parse loop fails only where the grammar machinery fails.
+func ruleLOOPRETURNS(c *Ctx, r *Report) {
+	const rule = "LOOP-RETURNS"
+	r.doc(rule, "every return of the parse loop whose error may be non-nil either passes on the error of the token→literal function or of the reduce method, or is an error of the acceptance case (end of input reached): the loop has no rejection criterion of its own in the shift path (a table of 'tokens an operand can end with', a depth limit, …) — such a criterion rejects some spelling of a query whose other spellings parse")
+	pr := c.parserRoles()
+	if pr.Err != "" {
+		r.bad(rule, "anchor", "-", pr.Err)
+		return
+	}
+	paths, complete := c.enumPathsOpt(pr.ParseLoop, 20000, c.parserInl(pr))
+	if !complete {
+		r.bad(rule, "paths", c.pos(pr.ParseLoop.Pos()), "too many paths")
+		return
+	}
+	n := 0
+	seen := map[string]bool{}
+	for _, p := range paths {
+		if p.Ret == nil || len(p.Ret.Results) != 2 {
+			continue
+		}
+		ev, ee := c.resolveE(p.Ret.Results[1], p.Env)
+		if isNilConst(ev) {
+			continue
+		}
+		var call *ssa.Call
+		switch x := ev.(type) {
+		case *ssa.Extract:
+			call, _ = x.Tuple.(*ssa.Call)
+		case *ssa.Call:
+			call = x
+		}
+		key := "error-return|" + c.key(ev, ee)
+		if seen[key] {
+			continue
+		}
+		n++
+		if call != nil && (call.Call.StaticCallee() == pr.ReduceM || (pr.TokToLit != nil && call.Call.StaticCallee() == pr.TokToLit)) {
+			seen[key] = true
+			r.ok(rule, key, c.instrPos(p.Ret), "propagated unchanged")
+			continue
+		}
+		accepting := false
+		for _, a := range c.expand(p.Atoms, nil) {
+			if a.Kind == "cmp" && a.Op == "==" && a.Val == "lex.TEOF" {
+				accepting = true
+			}
+			if a.Kind == "call" && a.Pos && pr.Accept != nil && a.Fn == pr.Accept {
+				accepting = true
+			}
+		}
+		if accepting {
+			seen[key] = true
+			r.ok(rule, key, c.instrPos(p.Ret), "error of the acceptance case (end of input)")
+			continue
+		}
+		seen[key] = true
+		r.bad(rule, key, c.instrPos(p.Ret), "the parse loop fails with an error of its own ("+c.key(ev, ee)+") before end of input: a criterion outside the shift predicate, the reducers and the token→literal function rejects queries (conditions: "+strings.Join(atomStrings(p.Atoms), " ∧ ")+")")
+	}
+	r.floor(rule, "error returns of the parse loop", n, 2)
 }
